@@ -85,11 +85,20 @@ fn main() {
     } else {
         let mut rng = Rng::new(args.seed);
         let n_inputs = args.num("inputs", 150, 2500) as usize;
-        for i in 0..n_inputs {
-            let rc = match rng.below(12) {
-                0..=6 => Recipe::random_program(&mut rng),
-                7 => Recipe::random_shared(&mut rng),
-                _ => Recipe::random_gadget(&mut rng),
+        // directed programs that are part of every run
+        let mut fixed: Vec<Recipe> = Recipe::always_dangling();
+        fixed.extend(Recipe::always_diverge());
+        let n_fixed = fixed.len();
+        for i in 0..n_inputs + n_fixed {
+            let rc = if i < n_fixed {
+                fixed[i].clone()
+            } else {
+                match rng.below(14) {
+                    0..=6 => Recipe::random_program(&mut rng),
+                    7 => Recipe::random_shared(&mut rng),
+                    8 => Recipe::random_diverge(&mut rng),
+                    _ => Recipe::random_gadget(&mut rng),
+                }
             };
             let avail: &Vec<String> = if rc.cfg_lkm { &avail_lkm } else { &all_names };
             jobs.push(Job { input_id: i, partial: None, tag: "default" });
@@ -159,6 +168,9 @@ fn main() {
         out.count(&format!("exit:{}", exit));
         if let Some(rc) = &recipes[j.input_id] {
             out.count(&format!("gen:{}:{:?}{}", rc.g, rc.kind, if rc.cfg_lkm { "+lkm_config" } else { "" }));
+            if rc.g == "special" {
+                out.count(&format!("special:{}", rc.gadgets.first().map(|s| s.split(':').next().unwrap_or("")).unwrap_or("")));
+            }
             if rc.shared && inp.features.iter().any(|f| f == "shared-blocks") {
                 out.count("feature:shared-blocks");
             }
